@@ -31,6 +31,6 @@ void _ZSt24__throw_out_of_range_fmtPKcz(void *s, ...) { __CPROVER_assert(0, "STU
 void _ZSt25__throw_bad_function_callv(void) { __CPROVER_assert(0, "STUB:throw_bad_function_call reached"); __CPROVER_assume(0); }
 void _ZNSt8ios_base4InitC1Ev(void *p) { (void)p; }
 void _ZNSt8ios_base4InitD1Ev(void *p) { (void)p; }
-char g___dso_handle;
-char __dso_handle;
+unsigned char g___dso_handle;
+unsigned char __dso_handle;
 char _ZSt7nothrow;
